@@ -44,8 +44,22 @@ def diagnose(trace, impl, cfg, nslots, deviations=()):
         json.dump([trace], f)
     cfgtxt = tlc.cfg_text(spec='TraceSpec', constants=consts, constraints=['DiagPrint'])
     r = tlc.run('EioServerTrace', cfgtxt, wd=wd, workers=1, env={'TRACE_FILE': path})
+    states = _extract_diag(r.out)
+    if not states:
+        return {'error': r.out[-2000:]}
+    maxl = max(s[1] for s in states)
+    cands = [s for s in states if s[1] == maxl]
+    # maxl = index of the next line to consume; lines < maxl-1 are matched; the step
+    # trace[maxl-1] was taken; its snapshot is what no state could match
+    exp = trace[maxl - 2]['st'] if maxl >= 2 else None
+    nxt = trace[maxl - 1] if maxl - 1 < len(trace) else None
+    return {'stuck_after_line': maxl - 1, 'line': trace[maxl - 2] if maxl >= 2 else None,
+            'next_line': {'ev': nxt['ev'], 'a': nxt['a']} if nxt else None,
+            'expected': exp, 'candidates': cands[:12], 'tlc_tail': r.out[-600:]}
+
+
+def _extract_diag(txt):
     states = []
-    txt = r.out
     i = 0
     while True:
         i = txt.find('<< "DIAG"', i)
@@ -73,14 +87,4 @@ def diagnose(trace, impl, cfg, nslots, deviations=()):
         except Exception as e:
             states.append(['DIAG', -1, 'unparsed: %r' % e, txt[i:i + 200]])
         i = j
-    if not states:
-        return {'error': r.out[-2000:]}
-    maxl = max(s[1] for s in states)
-    cands = [s for s in states if s[1] == maxl]
-    # maxl = index of the next line to consume; lines < maxl-1 are matched; the step
-    # trace[maxl-1] was taken; its snapshot is what no state could match
-    exp = trace[maxl - 2]['st'] if maxl >= 2 else None
-    nxt = trace[maxl - 1] if maxl - 1 < len(trace) else None
-    return {'stuck_after_line': maxl - 1, 'line': trace[maxl - 2] if maxl >= 2 else None,
-            'next_line': {'ev': nxt['ev'], 'a': nxt['a']} if nxt else None,
-            'expected': exp, 'candidates': cands[:12], 'tlc_tail': r.out[-600:]}
+    return states
